@@ -199,6 +199,13 @@ def _mentions_fresh(crate, role):
     for x in role_walk(role):
         if isinstance(x, tuple) and x[0] == "fnconst" and str(x[1]).endswith("Slot::fresh"):
             return True
+        # inside a closure that occurs in the role: `unwrap_or_else(|| *memo.get_or_insert_with(Slot::fresh))`
+        if isinstance(x, tuple) and x[0] == "agg" and isinstance(x[1], str) and x[1] in crate.bodies:
+            for sub in crate.bodies[x[1]].all_bodies():
+                for c in sub.calls:
+                    for a in c.args:
+                        if any(isinstance(y, tuple) and y[0] == "fnconst" and str(y[1]).endswith("Slot::fresh") for y in role_walk(sub.role_of_operand(a))):
+                            return True
     return C.role_calls_deep(crate, role, "fresh")
 
 
@@ -255,6 +262,13 @@ def h6(ctx):
                         if c.callee.name == "get" and len(c.args) == 2:
                             gets.append(strip_role(bb.role_of_operand(c.args[0])))
                 memo = any(i in gets for i in ins)
+                # the memo is keyed: `insert(memo, old slot, fresh)` takes three arguments, and the table it goes into is also read with
+                # `get`.  One shared cell (`Option::get_or_insert_with(Slot::fresh)`) hands the same name to *different* uncovered slots.
+                shared = [c for bb in b.all_bodies() for c in bb.calls if c.callee and c.callee.name in ("get_or_insert_with", "get_or_insert") and not bb.blocks[c.bb]["cleanup"]
+                          and any(_mentions_fresh(crate, bb.role_of_operand(a)) for a in c.args)]
+                ctx.check(not shared, "fresh-distinct-per-slot:" + C.fkey(b), "%s does not hand one shared invented name to different slots" % C.short(b.id),
+                          "%s keeps the invented slot in a single cell (get_or_insert_with) and writes it to every uncovered occurrence: two DIFFERENT redundant slots of a node are renamed to the same fresh slot — g(p(u, v)) is handed out as g(p(z, z)), which the class does not contain (Extractor::new looks it up and panics; extracted terms identify distinct variables)" % C.short(b.id),
+                          where_of(sub, bi, s.get("line")))
                 ctx.check(memo, "fresh-per-slot:" + C.fkey(b),
                           "%s records each invented slot in a map keyed by the old slot and reuses it for further occurrences" % C.short(b.id),
                           "%s writes Slot::fresh() into slot occurrences without memoising it per slot: two occurrences of one uncovered (redundant) slot get two different names, e.g. (sub (var x) (var x)) is handed out as (sub (var f1) (var f2)) — a different term" % C.short(b.id),
@@ -450,3 +464,12 @@ def h11(ctx):
 
 
 RULES.append(h11)
+
+
+@rule("H12", doc="a multi-pattern searcher hands the applier only real instances: a repeated variable is accepted only behind EGraph::eq (C05.V4)")
+def h12(ctx):
+    from . import c05
+    c05.v4(ctx)
+
+
+RULES.append(h12)
